@@ -166,7 +166,7 @@ def run_tlc(
     if meta.exists():
         shutil.rmtree(meta, ignore_errors=True)
     meta.mkdir(parents=True, exist_ok=True)
-    cmd = ["java", f"-Xmx{heap}", "-XX:+UseParallelGC"] + (jvm or [])
+    cmd = ["java", f"-Xmx{heap}", "-XX:+UseParallelGC", "-Xss256m"] + (jvm or [])
     if depth_first:
         cmd.append("-Dtlc2.tool.queue.IStateQueue=StateDeque")
     # every spec dir may reference spec/common
